@@ -63,7 +63,318 @@ def _scope_nodes(fn):
     return out
 
 
-def canonicalise(tree):
+def number_nodes(tree):
+    """`_seq`: position of every node in program-text order of the canonical tree.  Rules that ask "does this come
+    before that" use it; line numbers stop being an order once statements were moved by canonicalisation."""
+    k = 0
+    stack = [tree]
+    while stack:
+        n = stack.pop()
+        n._seq = k
+        k += 1
+        stack.extend(reversed(list(ast.iter_child_nodes(n))))
+    return tree
+
+
+_KNOWN_FUNCS = None
+
+
+def known_functions(modname):
+    """module-level function names of `modname` on the reference tree (spec/known_functions.json)"""
+    global _KNOWN_FUNCS
+    if _KNOWN_FUNCS is None:
+        import json
+        import os
+        with open(os.path.join(os.path.dirname(os.path.dirname(os.path.abspath(__file__))), 'spec', 'known_functions.json')) as f:
+            _KNOWN_FUNCS = json.load(f)['functions']
+    return set(_KNOWN_FUNCS.get(modname, ()))
+
+
+def known_methods(modname):
+    known_functions(modname)
+    import json
+    import os
+    global _KNOWN_METHS
+    if _KNOWN_METHS is None:
+        with open(os.path.join(os.path.dirname(os.path.dirname(os.path.abspath(__file__))), 'spec', 'known_functions.json')) as f:
+            _KNOWN_METHS = json.load(f).get('methods', {})
+    return {c: set(v) for c, v in _KNOWN_METHS.get(modname, {}).items()}
+
+
+_KNOWN_METHS = None
+
+
+def canonicalise(tree, modname=None):
+    """`_canon_steps`, with new single-use private helper functions read at their call site (`_inline_helpers`)
+    and the steps repeated on the result.  Functions the reference tree already has keep their own identity: the
+    rules name them."""
+    _canon_steps(tree)
+    known = known_functions(modname) if modname else set()
+    kmeth = known_methods(modname) if modname else None
+    for _ in range(8):
+        a = _inline_helpers(tree, known)
+        b = _inline_methods(tree, kmeth) if kmeth is not None else False
+        if not (a or b):
+            break
+        _canon_steps(tree)
+    return tree
+
+
+def _inline_methods(tree, known):
+    """(h') the same for a NEW private method `_h(self, p1..pn)` of a class (not on the reference tree, no decorator,
+    not defined by another class of the module) that the module only ever mentions as a call `self._h(a1..an)` made
+    as a whole statement (`self._h(..)`, `v = self._h(..)`, `return self._h(..)`) from a method of the same class:
+    every call site is replaced by the body, and the definition is dropped.  All sites or none."""
+    import copy
+    if not isinstance(tree, ast.Module):
+        return False
+    changed = False
+    classes = [c for c in tree.body if isinstance(c, ast.ClassDef)]
+    defined = {}
+    for c in classes:
+        for f in c.body:
+            if isinstance(f, ast.FunctionDef):
+                defined.setdefault(f.name, []).append(c.name)
+    for c in classes:
+        for h in [f for f in c.body if isinstance(f, ast.FunctionDef)]:
+            if not (h.name.startswith('_') and not h.name.startswith('__')) or h.decorator_list or h.name in known.get(c.name, ()):
+                continue
+            if len(defined.get(h.name, [])) != 1 or _fn_params(h) is None or not _fn_params(h):
+                continue
+            # every mention of the name
+            mentions = []
+            for n in ast.walk(tree):
+                if isinstance(n, ast.Attribute) and n.attr == h.name:
+                    mentions.append(n)
+                elif isinstance(n, ast.Name) and n.id == h.name:
+                    mentions.append(n)
+                elif isinstance(n, ast.Constant) and isinstance(n.value, str) and h.name in n.value:
+                    mentions.append(n)
+            if not mentions:
+                continue
+            plan = []
+            ok = True
+            for caller in [f for f in c.body if isinstance(f, ast.FunctionDef) and f is not h]:
+                if not caller.args.args:
+                    continue
+                recv = caller.args.args[0].arg
+                todo = [caller]
+                while todo and ok:
+                    node = todo.pop()
+                    for field in ('body', 'orelse', 'finalbody', 'handlers'):
+                        b = getattr(node, field, None)
+                        if not isinstance(b, list):
+                            continue
+                        if field == 'handlers':
+                            todo.extend(b)
+                            continue
+                        for st in b:
+                            if isinstance(st, (ast.FunctionDef, ast.AsyncFunctionDef, ast.ClassDef)):
+                                continue
+                            todo.append(st)
+                            call = st.value if isinstance(st, (ast.Return, ast.Assign, ast.Expr)) else None
+                            if isinstance(call, ast.Call) and isinstance(call.func, ast.Attribute) and call.func.attr == h.name \
+                                    and isinstance(call.func.value, ast.Name) and call.func.value.id == recv:
+                                fake = ast.Call(func=call.func, args=[ast.Name(id=recv, ctx=ast.Load())] + list(call.args),
+                                                keywords=call.keywords)
+                                new = _inlined_body(h, fake, st, caller, copy)
+                                if new is None:
+                                    ok = False
+                                    break
+                                plan.append((b, st, new, call.func))
+            if not ok or not plan or {id(x[3]) for x in plan} != {id(m_) for m_ in mentions}:
+                continue
+            for b, st, new, _ in plan:
+                i = b.index(st)
+                b[i:i + 1] = new
+            c.body.remove(h)
+            changed = True
+    if changed:
+        ast.fix_missing_locations(tree)
+    return changed
+
+
+def _fn_params(fn):
+    a = fn.args
+    if a.vararg or a.kwarg or a.kwonlyargs or a.defaults or a.kw_defaults or a.posonlyargs:
+        return None
+    return [x.arg for x in a.args]
+
+
+def _binds(node):
+    """names bound inside `node` (a nested scope): parameters, stores, handler names, imports, defs"""
+    out = set()
+    for n in ast.walk(node):
+        if isinstance(n, ast.arg):
+            out.add(n.arg)
+        elif isinstance(n, ast.Name) and isinstance(n.ctx, (ast.Store, ast.Del)):
+            out.add(n.id)
+        elif isinstance(n, ast.ExceptHandler) and n.name:
+            out.add(n.name)
+        elif isinstance(n, (ast.Import, ast.ImportFrom)):
+            for al in n.names:
+                out.add((al.asname or al.name).split('.')[0])
+        elif isinstance(n, (ast.FunctionDef, ast.AsyncFunctionDef, ast.ClassDef)):
+            out.add(n.name)
+    return out
+
+
+def _inline_helpers(tree, known=()):
+    """(h) A module-level function `_h(p1..pn)` (private name, no decorator, plain positional parameters, no
+    yield / global / nonlocal) that the module mentions exactly once, as `return _h(a1..an)` or `v = _h(a1..an)` /
+    `_h(a1..an)` with plain local names as arguments, is read at that call site: its body replaces the statement,
+    parameters renamed to the argument names, its other locals renamed where they would meet a name of the caller.
+    The second form needs a helper whose only `return` is its last statement and that does not rebind a parameter.
+    The definition, now unreferenced, is dropped.  Returns True when a site changed."""
+    import copy
+    if not isinstance(tree, ast.Module):
+        return False
+    helpers = {}
+    for st in tree.body:
+        if isinstance(st, ast.FunctionDef) and st.name.startswith('_') and not st.name.startswith('__') \
+                and not st.decorator_list and _fn_params(st) is not None and st.name not in known:
+            helpers[st.name] = st
+    if not helpers:
+        return False
+    mentions = {}
+    for n in ast.walk(tree):
+        if isinstance(n, ast.Name) and n.id in helpers:
+            mentions.setdefault(n.id, []).append(n)
+        elif isinstance(n, ast.Constant) and isinstance(n.value, str):
+            for h in helpers:
+                if h in n.value:
+                    mentions.setdefault(h, []).append(n)
+        elif isinstance(n, ast.Attribute) and n.attr in helpers:
+            mentions.setdefault(n.attr, []).append(n)
+        elif isinstance(n, ast.alias) and (n.name in helpers or n.asname in helpers):
+            mentions.setdefault(n.name if n.name in helpers else n.asname, []).append(n)
+    changed = False
+    for fn in [n for n in ast.walk(tree) if isinstance(n, ast.FunctionDef)]:
+        todo = [fn]
+        while todo:
+            node = todo.pop()
+            for field in ('body', 'orelse', 'finalbody', 'handlers'):
+                b = getattr(node, field, None)
+                if not isinstance(b, list):
+                    continue
+                if field == 'handlers':
+                    todo.extend(b)
+                    continue
+                i = 0
+                while i < len(b):
+                    st = b[i]
+                    if isinstance(st, (ast.FunctionDef, ast.AsyncFunctionDef, ast.ClassDef)):
+                        i += 1
+                        continue
+                    todo.append(st)
+                    call = st.value if isinstance(st, (ast.Return, ast.Assign, ast.Expr)) else None
+                    if not (isinstance(call, ast.Call) and isinstance(call.func, ast.Name) and call.func.id in helpers):
+                        i += 1
+                        continue
+                    h = helpers[call.func.id]
+                    if h is fn or len(mentions.get(h.name, [])) != 1 or mentions[h.name][0] is not call.func:
+                        i += 1
+                        continue
+                    new = _inlined_body(h, call, st, fn, copy)
+                    if new is None:
+                        i += 1
+                        continue
+                    b[i:i + 1] = new
+                    mentions[h.name] = []          # the site is gone; never inline the same helper twice
+                    tree.body.remove(h)            # nothing names the definition any more
+                    del helpers[h.name]
+                    changed = True
+                    i += len(new)
+    if changed:
+        ast.fix_missing_locations(tree)
+    return changed
+
+
+def _inlined_body(h, call, st, fn, copy):
+    params = _fn_params(h)
+    if call.keywords or len(call.args) != len(params) or any(isinstance(a, ast.Starred) for a in call.args):
+        return None
+    named = [(p, a.id) for p, a in zip(params, call.args) if isinstance(a, ast.Name)]
+    exprs = [(p, a) for p, a in zip(params, call.args) if not isinstance(a, ast.Name)]
+    args = [a for _, a in named]
+    if len(set(args)) != len(args):
+        return None
+    for _, a in exprs:
+        if any(isinstance(x, (ast.Lambda, ast.GeneratorExp, ast.ListComp, ast.SetComp, ast.DictComp, ast.NamedExpr, ast.Yield,
+                              ast.YieldFrom, ast.Await)) for x in ast.walk(a)):
+            return None
+    body = h.body
+    if body and isinstance(body[0], ast.Expr) and isinstance(body[0].value, ast.Constant) and isinstance(body[0].value.value, str):
+        body = body[1:]
+    if not body:
+        return None
+    own = _scope_nodes(h)
+    for n in ast.walk(h):
+        if isinstance(n, (ast.Yield, ast.YieldFrom, ast.Await, ast.Global, ast.Nonlocal)):
+            return None
+        if isinstance(n, ast.Name) and n.id in ('locals', 'vars', 'exec', 'eval', 'super', '__class__'):
+            return None
+    stored = set()
+    for n in own:
+        if isinstance(n, ast.Name) and isinstance(n.ctx, (ast.Store, ast.Del)):
+            stored.add(n.id)
+        elif isinstance(n, ast.ExceptHandler) and n.name:
+            stored.add(n.name)
+        elif isinstance(n, (ast.Import, ast.ImportFrom, ast.FunctionDef, ast.AsyncFunctionDef, ast.ClassDef)):
+            return None
+    tail_form = isinstance(st, ast.Return)
+    rebound = stored & {p for p, _ in named}
+    if not tail_form:
+        if rebound:
+            return None
+        rets = [n for n in own if isinstance(n, ast.Return)]
+        if len(rets) > 1 or (rets and rets[0] is not body[-1]):
+            return None
+    caller_names = {n.id for n in ast.walk(fn) if isinstance(n, ast.Name)} | {a.arg for a in ast.walk(fn) if isinstance(a, ast.arg)}
+    if tail_form and rebound:
+        # a rebound parameter writes the caller's variable: harmless only when no nested scope of the caller reads it
+        hit = {a for p, a in named if p in rebound}
+        for n in ast.walk(fn):
+            if n is not fn and isinstance(n, (ast.FunctionDef, ast.Lambda, ast.GeneratorExp, ast.ListComp, ast.SetComp, ast.DictComp)):
+                if {x.id for x in ast.walk(n) if isinstance(x, ast.Name)} & hit:
+                    return None
+    ren = dict(named)
+    # parameters bound to an expression and the helper's other locals become locals of the caller: renamed where
+    # they would meet one of its names
+    for v in sorted((stored - {p for p, _ in named}) | {p for p, _ in exprs}):
+        if v in caller_names or v in args:
+            ren[v] = '%s_%s' % (v, h.name.strip('_'))
+    # a nested scope of the helper that binds a renamed name would need scope-aware renaming: leave such helpers alone
+    for n in ast.walk(h):
+        if n is not h and isinstance(n, (ast.Lambda, ast.GeneratorExp, ast.ListComp, ast.SetComp, ast.DictComp)):
+            if _binds(n) & (set(ren) | set(ren.values())):
+                return None
+    new = copy.deepcopy(body)
+    for stn in new:
+        for n in ast.walk(stn):
+            if isinstance(n, ast.Name) and n.id in ren:
+                n.id = ren[n.id]
+            elif isinstance(n, ast.ExceptHandler) and n.name in ren:
+                n.name = ren[n.name]
+    prelude = [ast.copy_location(ast.Assign(targets=[ast.Name(id=ren.get(p, p), ctx=ast.Store())], value=a), st) for p, a in exprs]
+    if tail_form:
+        if not _terminates(new):
+            new.append(ast.copy_location(ast.Return(value=None), st))
+        return prelude + new
+    last = new[-1]
+    if isinstance(last, ast.Return):
+        value = last.value if last.value is not None else ast.Constant(value=None)
+        new = new[:-1]
+    else:
+        value = ast.Constant(value=None)
+    if isinstance(st, ast.Assign):
+        new.append(ast.copy_location(ast.Assign(targets=st.targets, value=value), st))
+    else:
+        new.append(ast.copy_location(ast.Expr(value=value), st))
+    return prelude + new
+
+
+def _canon_steps(tree):
     """Behaviour-preserving normal form applied to every module before any rule looks at it, so that the
     rules see one shape for the common equivalent spellings:
 
@@ -156,6 +467,13 @@ def canonicalise(tree):
                     if not isinstance(st, (ast.FunctionDef, ast.AsyncFunctionDef, ast.ClassDef)):
                         todo.append(st)
                     i += 1
+    # (i) a bare `return` / `return None` that ends a function body says nothing
+    for node in ast.walk(tree):
+        if isinstance(node, (ast.FunctionDef, ast.AsyncFunctionDef)) and len(node.body) > 1:
+            last = node.body[-1]
+            if isinstance(last, ast.Return) and (last.value is None or (isinstance(last.value, ast.Constant) and last.value.value is None)) \
+                    and not any(isinstance(x, (ast.Yield, ast.YieldFrom)) for x in _scope_nodes(node)):
+                node.body.pop()
     # (d) `pass` in a block that has other statements is dropped; (e) keyword arguments in a fixed (alphabetical) order
     for node in ast.walk(tree):
         for field in ('body', 'orelse', 'finalbody'):
@@ -261,6 +579,7 @@ def view(fn, kind):
         for ch in ast.iter_child_nodes(p_):
             ch._parent = p_
     new._parent = parent
+    number_nodes(new)
     return new
 
 
@@ -269,7 +588,8 @@ class Module(object):
         self.name = name
         self.path = path
         self.text = text
-        self.tree = canonicalise(ast.parse(text, filename=path))
+        self.tree = canonicalise(ast.parse(text, filename=path), name)
+        number_nodes(self.tree)
         for parent in ast.walk(self.tree):
             for child in ast.iter_child_nodes(parent):
                 child._parent = parent
